@@ -142,7 +142,7 @@ def run(rep, tier, seed):
                                 "generated_arms": [[lo, hi, list(res)] for lo, hi, res in ei.from_arms[:6]],
                                 "reference": [list(x) for x in r.enum_table(en)[:6]],
                                 "agree": len(rep.findings) == before})
-    add_other_backends(rep, g, stats)
+    add_other_backends(rep, g, stats, tier, seed)
     rep.coverage.update({
         "programs": n_enums,
         "disagreements_checked": stats["segments"] + stats["roundtrips"] + stats["widen"],
@@ -151,7 +151,7 @@ def run(rep, tier, seed):
         "samples": samples, "exhaustive": True,
         "explanation": "per enum, the generated conversion functions are compared with the reference table on every "
                        "elementary interval of the whole backing-type domain (exhaustive by construction)",
-        "backends": stats.get("backends", ["rust"]),
+        "backends": stats.get("backends", ["rust"]), "python_enums": stats.get("py_enums"), "cxx_enums": stats.get("cxx_enums"),
     })
     rep.assumptions.append("Rust match semantics: first matching arm wins; literal and range patterns only")
     if n_enums < 40:
@@ -160,9 +160,11 @@ def run(rep, tier, seed):
         rep.add("C15|coverage-floor-shapes", f"only {len(shapes)} enum shapes in the corpus (floor 8)", "corpus")
 
 
-def add_other_backends(rep, g, stats):
+def add_other_backends(rep, g, stats, tier="quick", seed=0):
     try:
         from . import c15_py
     except ImportError:
         return
     c15_py.run(rep, g, stats)
+    from . import c15_cxx
+    c15_cxx.run(rep, g, stats, tier, seed)
